@@ -10,8 +10,16 @@
 (*   Pure     a copying entry point leaves bytes/unit/dtype/shape/name of its *)
 (*            input unchanged (returning or raising)                          *)
 (*   Gate     different dimensions, not both members -> InvalidUnitEquivalence*)
-(*   Total    a covered request returns                                       *)
-(*   Formula  its numbers are the defining formula (Equiv!Phi) of the input   *)
+(*   Total    a covered request on 8-byte data returns (narrower data may be   *)
+(*            refused: there may be no float type to hold the result)         *)
+(*   Formula  its numbers are the defining formula (Equiv!Phi) of the input,  *)
+(*            wherever that number lies in the normal range of the RESULT's   *)
+(*            float type (rep; matched by the harness at the coarser of the   *)
+(*            input's and the result's precision): never inf/nan/garbage      *)
+(*            where the formula value is representable                        *)
+(*   Width    the result's float type is at least as wide as the input's item *)
+(*            size (a narrower one could not hold "the formula's value" of    *)
+(*            that input; C17 demands the same of plain conversions)          *)
 (*   Unit     ... expressed in the requested unit                             *)
 (*   Twin     the in-place form gives the numbers the copying form gave for   *)
 (*            the same request on the same object                             *)
@@ -46,7 +54,7 @@ VSig(vs) == IF ~Known(vs) THEN "foreign"
 
 Fail(clause, e, detail) ==
   PrintT(ToJson([tag |-> "P-FAIL", tid |-> tid, l |-> l, clause |-> clause, eq |-> e.eq, from |-> cur.d, to |-> Units[e.tu].d,
-                 en |-> e.en, form |-> IF e.en \in CopyEntries THEN "copy" ELSE "inplace", dt |-> cur.dt, sh |-> cur.sh,
+                 en |-> e.en, form |-> IF e.en \in CopyEntries THEN "copy" ELSE "inplace", dt |-> cur.dt, rdt |-> e.obs.dt, sh |-> cur.sh,
                  k |-> e.k, uin |-> Units[cur.u].s, uout |-> Units[e.tu].s, vsig |-> VSig(cur.v), detail |-> detail]))
 
 StepP(e) ==
@@ -60,22 +68,28 @@ StepP(e) ==
       same == ctx.eq = e.eq /\ ctx.k = e.k
       seen0 == IF same THEN seen ELSE [d \in AllDims |-> IF d = ta THEN cur.v ELSE <<>>]
       od == IF same THEN ctx.od ELSE ta
-      formulaBad == cov /\ o.k = "ok" /\ fv # <<>> /\ ~(Known(o.v) /\ ToSVs(o.v) = fv)
+      \* element-wise, where the formula value is representable in the result's float type
+      RepIdx == {i \in DOMAIN o.v : i \in DOMAIN o.rep /\ o.rep[i]}
+      allRep == \A i \in DOMAIN o.v : i \in RepIdx
+      formulaBad == cov /\ o.k = "ok" /\ fv # <<>> /\
+                    (Len(o.v) # Len(fv) \/ \E i \in RepIdx : ~(o.v[i].k = "sv" /\ SV(o.v[i].r, o.v[i].e) = fv[i]))
       \* claims about numbers are made for objects holding numbers of the specification's grid (the formulas' domain);
       \* an object that holds foreign numbers got them from a step that was already reported (e.g. an overflowed,
       \* negative flux whose fourth root is nan)
-      consBad == cov /\ o.k = "ok" /\ Known(cur.v) /\ seen0[tb] # <<>> /\ o.v # seen0[tb]
+      consBad == cov /\ o.k = "ok" /\ Known(cur.v) /\ allRep /\ seen0[tb] # <<>> /\ o.v # seen0[tb]
       twins == {p \in direct : p.eq = e.eq /\ p.k = e.k /\ p.tu = e.tu} IN
   /\ (copy /\ o.pre # o.post) => Fail("Pure", e, [pre |-> o.pre, post |-> o.post])
   /\ (unc /\ ~(o.k = "raise" /\ o.exc = "InvalidUnitEquivalence")) => Fail("Gate", e, [k |-> o.k, exc |-> o.exc])
-  /\ (cov /\ o.k # "ok") => Fail("Total", e, [k |-> o.k, exc |-> o.exc])
+  /\ (cov /\ o.k # "ok" /\ Bytes(cur.dt) = 8) => Fail("Total", e, [k |-> o.k, exc |-> o.exc])
+  /\ (cov /\ o.k = "ok" /\ Bytes(o.dt) < Bytes(cur.dt)) => Fail("Width", e, [input |-> cur.dt, result |-> o.dt])
   /\ formulaBad => Fail("Formula", e, [observed |-> o.approx, expected |-> fv])
   /\ (cov /\ o.k = "ok" /\ ~o.ueq) => Fail("Unit", e, [unit |-> o.unit])
-  /\ (~copy /\ o.k = "ok" /\ \E p \in twins : p.v # o.v) => Fail("Twin", e, [inplace |-> o.approx, copy |-> {p.approx : p \in twins}])
+  /\ (~copy /\ o.k = "ok" /\ \E p \in twins : Len(p.v) # Len(o.v) \/ \E i \in RepIdx : p.rep[i] /\ p.v[i] # o.v[i])
+        => Fail("Twin", e, [inplace |-> o.approx, copy |-> {p.approx : p \in twins}])
   /\ (consBad /\ ~formulaBad) => Fail(IF tb = od THEN "Inv" ELSE "Path", e, [observed |-> o.approx, earlier |-> seen0[tb]])
   \* bookkeeping of the observed object
   /\ LET moved == o.k = "ok" /\ e.fo /\ e.en # "to_value"
-         good == cov /\ o.k = "ok" /\ ~formulaBad /\ ~consBad IN
+         good == cov /\ o.k = "ok" /\ ~formulaBad /\ ~consBad /\ allRep IN
      /\ cur' = IF moved THEN [d |-> tb, u |-> e.tu, v |-> o.v, dt |-> o.dt,
                               sh |-> IF e.en \in InPlaceEntries THEN cur.sh ELSE IF cur.sh = "q" THEN "q" ELSE "a"]
                ELSE cur
@@ -87,7 +101,7 @@ StepP(e) ==
                       ELSE seen0)
                 ELSE seen
      /\ direct' = IF moved THEN {}
-                  ELSE IF copy /\ o.k = "ok" /\ ta # tb THEN direct \cup {[eq |-> e.eq, k |-> e.k, tu |-> e.tu, v |-> o.v, approx |-> o.approx]}
+                  ELSE IF copy /\ o.k = "ok" /\ ta # tb THEN direct \cup {[eq |-> e.eq, k |-> e.k, tu |-> e.tu, v |-> o.v, rep |-> o.rep, approx |-> o.approx]}
                   ELSE direct
 
 \* T: the transcription's prediction on the observed object
@@ -97,7 +111,9 @@ StepT(e) ==
     LET m == Outcome([d |-> cur.d, u |-> cur.u, v |-> ToSVs(cur.v), dt |-> cur.dt, sh |-> cur.sh], e)
         ok == \/ m.k = "undef"
               \/ /\ m.k = o.k /\ m.exc = o.exc /\ o.frame
-                 /\ m.k = "ok" => (Known(o.v) /\ ToSVs(o.v) = m.v /\ o.ueq /\ m.cls = o.cls /\ m.dt = o.dt)
+                 /\ m.k = "ok" => (/\ Len(o.v) = Len(m.v)
+                                   /\ \A i \in DOMAIN o.v : (i \in DOMAIN o.rep /\ o.rep[i]) => (o.v[i].k = "sv" /\ SV(o.v[i].r, o.v[i].e) = m.v[i])
+                                   /\ o.ueq /\ m.cls = o.cls /\ m.dt = o.dt)
                  /\ m.k = "raise" => o.pre = o.post IN
     ~ok => PrintT(ToJson([tag |-> "T-FAIL", tid |-> tid, l |-> l, en |-> e.en, eq |-> e.eq, from |-> cur.d, to |-> Units[e.tu].d,
                           model |-> [k |-> m.k, exc |-> m.exc, cls |-> m.cls, dt |-> m.dt],
